@@ -210,15 +210,15 @@ theorem failed_native_action_leaves_no_trace (fuel : Nat) (ro : Bool) (gas : Nat
       (if keepGas h gas < h.pFail then (.fail, s, 0)
        else if h.swallow then exec fuel ro (keepGas h gas - h.pFail) rest s else (.revert, s, keepGas h gas - h.pFail)) := by
   apply failed_precompile_call_leaves_no_trace fuel ro gas h req sh out [] act rest s hsh (by simp) hpre hfund
-  have hb : sh.outerBefore = false ∧ sh.evmAfterWrite = false ∧ sh.dropsActionError = false := by
+  have hb : sh.outerBefore = false ∧ sh.evmAfterWrite = false ∧ sh.dropsActionError = false ∧ sh.outerOnError = false := by
     simp only [RunShape.clean, Bool.and_eq_true, Bool.not_eq_true'] at hsh
-    exact ⟨hsh.1.1.1, hsh.1.2, hsh.2⟩
+    exact ⟨hsh.1.1.1.1, hsh.1.1.2, hsh.1.2, hsh.2⟩
   unfold runPre
   rcases hfail with hlt | hact
   · simp [hlt]
   · by_cases hlt : fwdGas h gas + h.stip < req
     · simp [hlt]
-    · simp [hlt, hb.1, hb.2.1, hb.2.2, runClosure, runInner, St.keeper, hact]
+    · simp [hlt, hb.1, hb.2.1, hb.2.2.1, hb.2.2.2, runClosure, runInner, St.keeper, hact]
 
 /-- a precompile call (clean shape, no EVM calls inside) that succeeds contributes exactly its action's result (and its
 logs) to the state the caller goes on with — journaled, so that it is undone as one unit with the rest of the frame
@@ -236,7 +236,7 @@ theorem successful_native_action_kept (fuel : Nat) (ro : Bool) (gas : Nat) (h : 
          { t with native := if sh.outerAfter then out a.2.1 else a.2.1, journal := .native (s.enter h).native :: t.journal }) := by
   have hb : sh.outerBefore = false ∧ sh.evmAfterWrite = false := by
     simp only [RunShape.clean, Bool.and_eq_true, Bool.not_eq_true'] at hsh
-    exact ⟨hsh.1.1.1, hsh.1.2⟩
+    exact ⟨hsh.1.1.1.1, hsh.1.1.2⟩
   cases hoa : sh.outerAfter <;>
   simp [exec, hpre, hfund, resolve, runPre, hgas, hb.1, hb.2, runClosure, runInner, St.keeper,
     hact, hpost, hoa, St.poke]
@@ -275,6 +275,24 @@ theorem outer_write_after_action_is_undone (v : View N) (f out : N → N) :
         .revert 0]] v = (.ok, v, 1000) := by
   simp [runTx, exec, resolve, CallHdr.unfunded, runPre, runClosure, runInner, St.keeper, St.poke, St.enter, hdr0, okAct, fwdGas, keepGas,
     St.revertTo, undoAll, undo, commit, St.addLogs, RunShape.tidy]
+
+/-- `outerOnError` (round 4): a keeper write on `stateDB.Context()` in the ERROR branch after `ExecuteNativeAction` ("drop
+the claim that cannot be executed"): the snapshot has been put back, the write that follows is not journaled, and the
+failing call's frame holds no native journal entry that would restore it — the call FAILS, its caller tolerates that,
+the transaction succeeds, and the write of the failed call is committed -/
+theorem outer_write_on_error_path_survives_failed_call (v : View N) (f out : N → N) :
+    runTx 5 1000 [.pre (hdr0 true) 0 { RunShape.tidy with outerOnError := true } out [] (fun _ _ n => (.err, f n, []))] v =
+      (.ok, { v with native := out v.native }, 15) := by
+  simp [runTx, exec, resolve, CallHdr.unfunded, runPre, runClosure, runInner, St.keeper, St.poke, St.enter, hdr0, fwdGas, keepGas,
+    St.revertTo, undoAll, commit, St.addLogs, RunShape.tidy]
+
+/-- … and the same write is harmless when the call carries a value: the frame's `Transfer` entry holds a snapshot of the
+whole native store from before the call, and reverting the failed frame restores it (why such a defect needs msg.value = 0) -/
+theorem outer_write_on_error_path_is_undone_by_the_value_transfer (v : View N) (f out t : N → N) :
+    runTx 5 1000 [.pre { (hdr0 true : CallHdr N) with xfer := some t } 0 { RunShape.tidy with outerOnError := true } out []
+      (fun _ _ n => (.err, f n, []))] v = (.ok, v, 15) := by
+  simp [runTx, exec, resolve, CallHdr.unfunded, runPre, runClosure, runInner, St.keeper, St.poke, St.enter, St.transfer, hdr0, fwdGas,
+    keepGas, St.revertTo, undoAll, undo, commit, St.addLogs, RunShape.tidy]
 
 /-- `recovers`: the keeper part panics after half-writing the store (a store gas meter running out, say); a deferred
 `recover()` in `Run` turns the panic into an error return — but the panic went THROUGH `ExecuteNativeAction`, which
@@ -355,7 +373,8 @@ theorem runPre_is_fork_native_action (ev : Eval N) (roCtx roCall : Bool) (gas re
       if gas < req then (.fail, s, 0) else
       match naModel (runClosure ev roCtx roCall (gas - req) sh inner act) (if sh.outerBefore then s.poke out else s) with
       | (.ok, s2) => (.ok, if sh.outerAfter then s2.poke out else s2, gas - req)
-      | (.err, s2) => if sh.dropsActionError then (.ok, s2, gas - req) else (.fail, s2, 0)
+      | (.err, s2) => if sh.dropsActionError then (.ok, s2, gas - req)
+                      else (.fail, if sh.outerOnError then s2.poke out else s2, 0)
       | (.panic, s1) => if sh.recovers then (.fail, s1, 0) else (.abort, s1, 0) := by
   unfold runPre naModel
   by_cases hg : gas < req
@@ -376,18 +395,55 @@ theorem evm_call_program_as_modelled (h : CallHdr N) (callee : St N → Outcome 
   · rcases hc : callee (s.enter h) with ⟨o, s1, g1⟩
     cases o <;> simp [execC, stepC, hf, hc]
 
-/-- the same for all FOUR call kinds when no value is attached (`DelegateCall` / `StaticCall` cannot carry one;
-`CallCode` checks the balance but moves nothing) -/
+/-- the same for all FOUR call kinds when no value moves (`DelegateCall` / `StaticCall` cannot carry one; `CallCode` checks
+the balance but moves nothing).  Round 4: the statement now also covers CALLCODE WITH a value (`checkOnly = true`, any
+`funded`): the fork's `CallCode` has the balance check and no `Transfer`, so it is `callModel` of a header without `xfer` -/
 theorem evm_valueless_call_programs_as_modelled (k : Kind) (h : CallHdr N) (hx : h.xfer = none)
+    (hk : k = .callcode ∨ h.checkOnly = false)
     (callee : St N → Outcome × St N × Nat) (s : St N) (gas : Nat) :
     runCall (progOf k) h callee s gas = some (callModel h callee s gas) := by
-  have hf : h.unfunded s.native = false := by simp [CallHdr.unfunded, hx]
   have he : s.enter h = s := by simp [St.enter, hx]
   unfold runCall callModel
   rcases hc : callee s with ⟨o, s1, g1⟩
-  cases k <;> cases o <;>
-    simp [progOf, progCall, progCallCode, progDelegateCall, progStaticCall, execC, stepC, hf, he, hc]
-example : (hdr0 true : CallHdr Nat).xfer = none := rfl
+  rcases hk with hk | hk
+  · subst hk
+    by_cases hf : h.unfunded s.native
+    · simp [progOf, progCallCode, execC, stepC, hf]
+    · cases o <;> simp [progOf, progCallCode, execC, stepC, hf, he, hc]
+  · have hf : h.unfunded s.native = false := by simp [CallHdr.unfunded, hx, hk]
+    cases k <;> cases o <;>
+      simp [progOf, progCall, progCallCode, progDelegateCall, progStaticCall, execC, stepC, hf, he, hc]
+example : (hdr0 true : CallHdr Nat).xfer = none ∧ (hdr0 true : CallHdr Nat).checkOnly = false := ⟨rfl, rfl⟩
+
+/-- CALLCODE with a value as the fork has it now (round 4; was a journaled ghost in the driver): for ANY header — even one
+that names a transfer — `EVM.CallCode` consults the balance and then runs the callee on the StateDB AS IT IS: no `Transfer`
+statement, hence no native journal entry and nothing to give back.  Stated over the regenerated `progCallCode`: a fork
+that made CallCode move the value breaks this -/
+theorem evm_callcode_checks_balance_moves_nothing (h : CallHdr N) (callee : St N → Outcome × St N × Nat) (s : St N) (gas : Nat) :
+    runCall progCallCode h callee s gas =
+      some (if h.unfunded s.native then (.revert, s, gas) else
+            if (callee s).1 = .abort ∨ (callee s).1 = .ok then callee s
+            else ((callee s).1, (callee s).2.1.revertTo s.journal.length, if (callee s).1 = .revert then (callee s).2.2 else 0)) := by
+  unfold runCall progCallCode
+  by_cases hf : h.unfunded s.native
+  · simp [execC, stepC, hf]
+  · rcases hc : callee s with ⟨o, s1, g1⟩
+    cases o <;> simp [execC, stepC, hf, hc]
+
+/-- a CALLCODE whose value the executing account cannot cover never starts: the state is untouched and ALL the gas handed
+over (stipend included) comes back — while the same header passes a STATIC context (no write-protection test in
+`opCallCode`, the frame model's guard looks at `xfer` only) -/
+theorem unfunded_callcode_value_leaves_no_trace (fuel : Nat) (ro : Bool) (gas : Nat) (h : CallHdr N) (body rest : List (Prog N)) (s : St N)
+    (hx : h.xfer = none) (hc : h.checkOnly = true) (hg : ¬ gas < h.callc) (hfund : h.funded s.native = false) :
+    exec (fuel + 1) ro gas (.call h body :: rest) s =
+      (let g3 := keepGas h gas + (fwdGas h gas + h.stip)
+       if g3 < h.pFail then (.fail, s, 0)
+       else if h.swallow then exec fuel ro (g3 - h.pFail) rest s else (.revert, s, g3 - h.pFail)) := by
+  have hu : h.unfunded s.native = true := by simp [CallHdr.unfunded, hc, hfund]
+  exact unfunded_call_leaves_no_trace fuel ro gas h body rest s (by simp [hx, hg]) hu
+example : ({ (hdr0 true : CallHdr Nat) with checkOnly := true, funded := fun _ => false }).xfer = none ∧
+    ({ (hdr0 true : CallHdr Nat) with checkOnly := true, funded := fun _ => false }).checkOnly = true ∧
+    ({ (hdr0 true : CallHdr Nat) with checkOnly := true, funded := fun _ => false }).funded 0 = false := ⟨rfl, rfl, rfl⟩
 
 /-- `(*EVM).create` (CREATE / CREATE2: a constructor frame) as the fork has it now: the same discipline as `Call` — balance
 check before any snapshot, Snapshot, endowment Transfer, run the init code, on error RevertToSnapshot and burn the gas unless
@@ -447,6 +503,37 @@ length; journal.Revert newest-first down to the snapshot, then truncation; nativ
 Clone / Restore; `Context()` returns the very `s.ctx` native actions run on; Commit writes the native store before the
 dirty EVM storage; Transfer is a native action; AddLog is journaled; RequiredGas is charged before Run) -/
 theorem statedb_facts_as_modelled : stateDBFacts = expectedStateDBFacts := by rfl
+
+
+/-! ### round 4 — the translator's "neutral" classification is data, compared with the reviewed list -/
+
+/-- every statement of `ExecuteNativeAction`, `EVM.Call / CallCode / DelegateCall / StaticCall` and `create` that the
+dependency translator took as neutral is, character for character, one of the REVIEWED statements (`reviewedNeutral`), in
+the same order, with the same StateDB methods inside: a new statement kind, a changed tracer block, a new early return in
+either fork makes this obligation fail instead of being absorbed by a prefix match -/
+theorem dependency_neutral_statements_are_the_reviewed_ones : neutralStmts = reviewedNeutral := by rfl
+
+/-- no neutral step of the interpreted programs is missing from that list: per function, the programs `stepC` / `stepNA`
+skip over exactly as many steps as there are recorded statements -/
+theorem dependency_neutral_steps_all_recorded :
+    (∀ p ∈ depProgs, (p.2.filter cNeutral).length = (neutralOf p.1 neutralStmts).length) ∧
+    (nativeActionProg.filter naNeutral).length = (neutralOf "ExecuteNativeAction" neutralStmts).length ∧
+    (neutralStmts.all fun n => n.1 == "ExecuteNativeAction" || depProgs.any (fun p => p.1 == n.1)) = true := by
+  decide
+
+/-- the StateDB methods reachable from neutral statements are account bookkeeping only — none of Snapshot,
+RevertToSnapshot, ExecuteNativeAction, Transfer, SetState, AddLog, Context, Commit -/
+theorem dependency_neutral_statements_only_do_account_bookkeeping :
+    ∀ n ∈ neutralStmts, ∀ m ∈ n.2.2.1, m ∈ accountBookkeeping := by decide
+
+/-- a neutral statement that can RETURN from `EVM.Call*` / `create` stands before the value transfer and before the callee
+runs (nothing has changed since the snapshot, or no snapshot exists yet), in every one of the five programs; and
+`ExecuteNativeAction` has no returning neutral statement at all -/
+theorem dependency_neutral_returns_precede_every_effect :
+    (∀ p ∈ depProgs, ∀ i ∈ returningIdx (neutralOf p.1 neutralStmts), i < neutralBeforeEffect p.2) ∧
+    returningIdx (neutralOf "ExecuteNativeAction" neutralStmts) = [] := by decide
+-- non-vacuity: there ARE returning neutral statements (Call: the non-existent-account shortcut; create: nonce overflow, collision)
+example : returningIdx (neutralOf "Call" neutralStmts) = [2] ∧ returningIdx (neutralOf "create" neutralStmts) = [1, 5] := by decide
 
 /-! ### the order of the statements is what decides (each pair differs from the regenerated program in ONE swap) -/
 
